@@ -21,6 +21,10 @@ func (o *objectGoSliceReflect) init() {
 
 func (o *objectGoSliceReflect) _putIdx(idx int, v Value, throw bool) bool {
 	if idx >= o.fieldsValue.Len() {
+		if idx == math.MaxInt {
+			// idx+1 would wrap around
+			panic(rangeError("Slice size is too large: " + strconv.Itoa(idx)))
+		}
 		o.grow(idx + 1)
 	}
 	return o.objectGoArrayReflect._putIdx(idx, v, throw)
